@@ -545,10 +545,24 @@ static void parseEmit(void *inFrame, lltd_iface_state *st, void *iface_ctx) {
     lltd_emit_upper_header_t *emitHeader =
         (lltd_emit_upper_header_t *)((uint8_t *)lltdHeader + sizeof(*lltdHeader));
 
+    int numDescs = (int)lltd_ntohs(emitHeader->numDescs);
+
+    /*
+     * The core is not told the frame length; the receive buffer is MTU bytes.
+     * A descriptor count that cannot fit in that buffer is malformed: drop
+     * the frame instead of walking past the end of the buffer.
+     */
+    size_t mtu = 0;
+    if (lltd_port_get_mtu(iface_ctx, &mtu) != 0 ||
+        mtu < sizeof(*lltdHeader) + sizeof(*emitHeader) ||
+        (size_t)numDescs > (mtu - sizeof(*lltdHeader) - sizeof(*emitHeader)) / sizeof(emitee_descs)) {
+        log_warning("parseEmit: %d descriptors do not fit the receive buffer, dropping", numDescs);
+        return;
+    }
+
     st->mapper_seq = lltd_ntohs(lltdHeader->seqNumber);
     set_active_mapper(st, &lltdHeader->realSource, &lltdHeader->frameHeader.source);
 
-    int numDescs = (int)lltd_ntohs(emitHeader->numDescs);
     uint16_t offsetEmitee = 0;
 
     for (int i = 0; i < numDescs; i++) {
